@@ -284,7 +284,7 @@ def c18(c):
     c.assumptions += ["time is measured with std::time::Instant at the start and end of every port write/read and at process_message return",
                       "lower bounds are asserted on every paced exchange; for unpaced kinds only the minimum over repeated trials must stay below the delay, "
                       "so scheduler noise cannot cause an alarm", "some replies are delivered 60 / 130 ms late so that the pause is seen to count from receipt"]
-    return c.finish("model_checking",
+    return c.finish("other",
                     "M: on the model the only sleeps are 30 ms after a data chunk and 100 ms after an in-progress report (logical clock); V: a real "
                     "SerialSignBus sends every message kind repeatedly (data chunks of length 0, 1, 16, 255), with every state and every acknowledgement as "
                     "replies; the timed trace spec checks both lower bounds on every paced exchange and that the per-kind minimum of every other exchange is "
